@@ -461,6 +461,7 @@ type Source struct {
 	ci, zi      int
 	zleft       int
 	armed       bool
+	ended       bool // the end error has been returned once
 }
 
 func (s *Source) Read(p []byte) (int, error) {
@@ -484,11 +485,17 @@ func (s *Source) Read(p []byte) (int, error) {
 	if end == nil {
 		end = io.EOF
 	}
+	if s.ended {
+		// The source reported its end (or failure) once; a reader that keeps
+		// reading afterwards only sees a plain end of stream.
+		return 0, io.EOF
+	}
 	rem := len(s.Data) - s.Pos
 	if rem == 0 {
 		if s.Stall {
 			return 0, nil
 		}
+		s.ended = true
 		return 0, end
 	}
 	n := len(p)
@@ -505,6 +512,7 @@ func (s *Source) Read(p []byte) (int, error) {
 	copy(p, s.Data[s.Pos:s.Pos+n])
 	s.Pos += n
 	if s.Pos == len(s.Data) && s.EOFWithData && !s.Stall {
+		s.ended = true
 		return n, end
 	}
 	return n, nil
